@@ -148,9 +148,15 @@ def run(rep, tier, seed, replay=None):
         'regeneration (Gen/FlexGen.v, Gen/BlockGen.v, Gen/GridTracksGen.v)',
         'over binary32 `free_space.is_normal()` (flex 9.7) is false for subnormal values, a set that is not closed under scaling; over XQ '
         'it is `finite and non-zero` and invariant',
-        'what feeds the container kernels is outside the proofs and covered by the implementation-side oracle only: flex base sizes, '
-        'line breaking, cross axis, baselines; grid placement and step 11.5 (a premise of C04_grid_track_sizing_partial); block '
-        'content-based width; the engine recursion (child outputs are oracle values of the kernels), the cache and pixel rounding',
+        'whole trees: C04_engine (any homogeneous algorithms, engine skeleton Model/Engine.v with the EXACT-KEY memo) and, premise-free, '
+        'C04_block_engine_instance for engines of block containers and leaves: Model/BlockAlg.v (compute_inner as a resumption incl. the '
+        'content-based width queries; in-flow step = the function C10 K2 runs) + Model/BlockEngine.v (block_pre = compute_block_layout\'s '
+        'known-dimension preprocessing, for InherentSize the block_styled_known of C10 K1; the adapter to Model/Leaf.v; dispatch on '
+        'has_children) are hand models; the absolute pass is the parameter abs_child (premise AbsChildRel, discharged for a simple routine, '
+        'not for the translated one)',
+        'still covered by the implementation-side oracle only: flex base sizes, line breaking, cross axis, baselines; grid placement and '
+        'step 11.5 (a premise of C04_grid_track_sizing_partial) -- for flex / grid containers `Homogeneous` is a premise of C04_engine '
+        '(false for flex in the known-finding class); the real lossy cache key (is_roughly_equal: refuted) and pixel rounding (refuted)',
         'classification of oracle mismatches into the two known findings is decided on the style tree (over-approximation, rate-limited)']
     res, changed = proof_stage(rep, 'C04', extra_trusted=trusted)
     if not res['compiled'] and 'Error' not in res.get('output', ''):
@@ -335,6 +341,9 @@ def run(rep, tier, seed, replay=None):
                                '(x_scale k gap) (opt_scale k inner_main))'})
     samples.append({'theorem': 'C04_block_inflow : forall k P xs, 0 < k -> binflow_rel k (block_inflow P xs) (block_inflow (bparams_scale k P) '
                                '(map (bpair_scale k) xs))'})
+    samples.append({'theorem': 'C04_block_engine_instance : forall k, 0 < k -> forall f t t\' i i\', trel (bnode_rel k) (bin_rel k) (bout_rel k) '
+                               '(blay_rel k) t t\' -> bin_rel k i i\' -> oprel (res_rel ..) (bl_memo block_pre abs_child_simple f t i) '
+                               '(bl_memo block_pre abs_child_simple f t\' i\')'})
     samples.append({'theorem': 'C04_grid_maximise_threshold : forall k inner a ts, 0 < k -> tracks_rel k (maximise_tracks_t (Fin '
                                '(DISTRIBUTE_THRESHOLD_Q / k)) inner a ts) (maximise_tracks (opt_scale k inner) (gavail_scale k a) (map (track_scale k) ts))'})
     samples.append({'theorem': 'C04_flex_intrinsic_refuted : exists k cc fb ifb g s, 0 < k /\\ finite .. /\\ ~ sc k (item_target_size cc fb ifb g s) '
